@@ -32,7 +32,8 @@ CHECKS = {
 FAMILY = {
     "C01": dict(mc="MC_Ledger", gen="MC_GenLedger", quick=240, thorough=2500, drivers=["secret", "configmap", "memory"],
                 sweep=(8, 60), sweep_uninstall=True, extra_gen=["MC_GenLedgerLong.cfg"], gen_depth=1200),
-    "C02": dict(mc="MC_Cluster", gen="MC_GenCluster", quick=260, thorough=2500, drivers=["secret", "memory", "configmap"]),
+    "C02": dict(mc="MC_Cluster", gen="MC_GenCluster", quick=300, thorough=3000, drivers=["secret", "memory", "configmap"],
+                extra_gen=["MC_GenClusterRetry.cfg"], gen_split=True),
     "C03": dict(mc="MC_Fault", gen="MC_GenFault", quick=200, thorough=2000, drivers=["secret", "configmap", "memory"],
                 sweep=(6, 60)),
     "C06": dict(mc="MC_Dry", gen="MC_GenDry", quick=260, thorough=2000, drivers=["secret", "memory", "configmap"]),
@@ -376,7 +377,7 @@ def run(pid, tier, seed, replay=None):
     gens = [fam["gen"] + ".cfg"] + list(fam.get("extra_gen", []))
     raws = []
     for gi, gcfg in enumerate(gens):
-        r, gout = vlib.generate(d, fam["gen"] + ".tla", gcfg, max(10, n // len(gens) if gi == 0 else n // (3 * len(gens))),
+        r, gout = vlib.generate(d, fam["gen"] + ".tla", gcfg, max(10, n // len(gens) if (gi == 0 or fam.get("gen_split")) else n // (3 * len(gens))),
                                 fam.get("gen_depth", 400), seed + 1000 * gi,
                                 timeout=900 if tier == "quick" else 3600)
         raws += r
